@@ -113,7 +113,7 @@ GRAMMAR_CODE = {
              '[\n        a,\n        (b,\n  c),\n], [\n     d,\n e]', 'f(\n        a)(\n   b)'],
     'expr1': ['nm', 'a.b', 'f(x)', '(a + b)', 'a[0]', '(lambda: 0)', 'a if b else c', 'x or y', 'await z', '-n', '[e]'],
     'dictval': ['vv', 'a + b', 'lambda: 0', 'a if b else c', '(x, y)'],
-    'target': ['tgt', 't.attr', 't[0]', '(p, q)', '[p, *q]', 'é, ü', 'ñ.é', '(tg)', '((tg))', '(\n   p,\n q)'],
+    'target': ['tgt', 't.attr', 't[0]', '(p, q)', '[p, *q]', 'é, ü', 'ñ.é', '(\n   p,\n q)'],
     'starred': ['*s2', '*(a or b)', 'plain'],
     'stmt': ['pass', 'x = 1', 'if c:\n    d\nelse:\n    e', 'for i in j: pass', 'def g(): return 1', 'return', 'a; b',
              'with a as b:\n    # cmt\n    pass', 'class K: pass', '@d\ndef h(a=1): pass', 'try: pass\nfinally: pass',
